@@ -430,6 +430,11 @@ func loadChunk(l *Lexer, recordLen uint64) error {
 
 		_, err := io.ReadFull(l.reader, l.uncompressedChunk[:uncompressedSize])
 		if err != nil {
+			if errors.Is(err, io.EOF) {
+				// the chunk holds less data than it declares: that is corruption or
+				// truncation, and must not look like a clean end of file to the caller.
+				err = io.ErrUnexpectedEOF
+			}
 			return fmt.Errorf("failed to decompress chunk: %w", err)
 		}
 
